@@ -31,7 +31,7 @@ RULE = ('one evaluation = one seeded run: 4-20 values drawn from the picklable d
         'an exception and no trace of the key; non-trivial = at least one file-backed value round-tripped; distinct = SHA-256 of the case')
 ASSUMPTIONS = ['this property is mostly a function of the input; the simulator contributes the stream, fault and restart dimensions, the value sweep is generative differential testing on the same runs',
                'JSONDisk is exercised with JSON-stable values only (no tuples, no byte strings, no streams)']
-PROBES = ('file_backed', 'stream_values', 'short_reads', 'rejected_values', 'restart_reads', 'oserr', 'chunk_boundary', 'shared_or_cyclic_values', 'real_file_streams')
+PROBES = ('file_backed', 'stream_values', 'short_reads', 'rejected_values', 'restart_reads', 'oserr', 'chunk_boundary', 'shared_or_cyclic_values', 'real_file_streams', 'returned_value_mutated')
 TECHNIQUE = 'deterministic simulation of the storage path (seeded short reads, injected file-system and stream errors, simulated restart) + generative round-trip comparison over the value domain'
 LEVEL_TEXT = ('seeded exploration of values x thresholds x serializer settings x store/read paths, with the I/O side under the simulator '
               '(streams that return short reads, one failing file-system call, process restart between write and read); round trips are '
@@ -238,6 +238,19 @@ def run_case(case):
                     'stored %s via %s, read back %s via %s (threshold %d, protocol %d, %s)' % (
                         vals.brief(want), step['how'], vals.brief(got), via, cfg['mfs'], cfg['proto'], 'JSONDisk' if cfg['json'] else 'Disk'))
                 return False
+            # what a lookup returns is the caller's own copy: changing it in place changes nothing that a later lookup returns
+            try:
+                if type(got) is list:
+                    got.append('changed-by-the-caller')
+                elif type(got) is dict:
+                    got['changed-by-the-caller'] = 1
+                elif type(got) is bytearray:
+                    got.extend(b'changed')
+                else:
+                    return True
+                probes['returned_value_mutated'] = probes.get('returned_value_mutated', 0) + 1
+            except Exception:  # noqa
+                pass
             return True
 
         def client():
